@@ -115,6 +115,22 @@ RegDepCase(x) ==
       fin == Final(p, r0, x[2], 256, 64)
   IN CaseRec("RegDep", p, r0, x[2], 256, fin, {"t0", "t1", "t2", "t3"}, {}, Tags(p, fin), [n |-> Len(x[1])])
 
+(* Tail, second shape: stores immediately before ret to a line that one core owns Modified while *)
+(* that core is busy, after an eviction made the control unit refresh its protocol snapshot.      *)
+(* The finding classes for ret are conservative (they ignore that the stores occupy the units);   *)
+(* for this shape the class is narrowed to what is observed: the load is lost on MVP-8 with 3     *)
+(* cores (tag tail2_load_dropped), the last store on MVP-4/5 and the store during the line fetch  *)
+(* on MVP-6.x with >= 2 units keep their general tags.                                            *)
+Tail2Cases == { <<k, n>> : k \in {0, 2, 4, 6, 8, 10}, n \in {1, 2} }
+Tail2Case(x) ==
+  LET fill == [i \in 1 .. x[1] |-> Nop]
+      last == IF x[2] = 2 THEN <<Sw("t0", "a0", 8), Sw("t0", "a0", 12)>> ELSE <<Sw("t0", "a0", 8)>>
+      p == <<Addi("t0", "zero", 5), Sw("t0", "a0", 0), Lw("t1", "a1", 0), Sw("t0", "a1", 4)>> \o fill \o last \o <<Ret>>
+      r0 == Regs0(64, 128, 1, 7, 3, 0)
+      fin == Final(p, r0, "ramp", 256, 64)
+      tags == (Tags(p, fin) \ {"ret_drops_inflight_load", "ret_drops_inflight"}) \cup {"tail2_load_dropped"}
+  IN CaseRec("Tail2", p, r0, "ramp", 256, fin, {"t0", "t1"}, (64 .. 79) \cup (128 .. 135), tags, [fill |-> x[1], stores |-> x[2]])
+
 (* -------------------------------- Tail (C09) ------------------------------- *)
 (* prologue warms line 64 (so that later accesses to it hit) and leaves line 128 cold *)
 TailIns == { Lw("t0", "a1", 0), Lw("t0", "a0", 4), Sw("t1", "a1", 8), Sw("t1", "a0", 8), Addi("t2", "t2", 3),
@@ -343,11 +359,11 @@ MisCase(x) ==
       fin == Final(p, r0, "ramp", 256, 64)
   IN CaseRec("Misaligned", p, r0, "ramp", 256, fin, {"t0", "t2"}, 64 .. 75, Tags(p, fin), [op |-> x[1], off |-> x[2]])
 
-Cases == CASE Family = "Shadow" -> ShadowCases [] Family = "Shadow2" -> Shadow2Cases [] Family = "Misaligned" -> MisCases [] Family = "Repo" -> RepoCases [] Family = "Unroll" -> UnrollCases [] Family = "Call" -> CallCases [] Family = "LineFill" -> LineFillCases
+Cases == CASE Family = "Shadow" -> ShadowCases [] Family = "Shadow2" -> Shadow2Cases [] Family = "Tail2" -> Tail2Cases [] Family = "Misaligned" -> MisCases [] Family = "Repo" -> RepoCases [] Family = "Unroll" -> UnrollCases [] Family = "Call" -> CallCases [] Family = "LineFill" -> LineFillCases
            [] Family = "RegDep" -> RegDepCases [] Family = "Tail" -> TailCases
            [] Family = "MemDep" -> MemDepCases [] Family = "MemWalk" -> WalkCases [] Family = "Err" -> ErrCases
            [] Family = "Timing" -> TimingCases
-MkCase(x) == CASE Family = "Shadow" -> ShadowCase(x) [] Family = "Shadow2" -> Shadow2Case(x) [] Family = "Misaligned" -> MisCase(x) [] Family = "Repo" -> RepoCase(x) [] Family = "Unroll" -> UnrollCase(x) [] Family = "Call" -> CallCase(x) [] Family = "LineFill" -> LineFillCase(x) [] Family = "RegDep" -> RegDepCase(x) [] Family = "Tail" -> TailCase(x)
+MkCase(x) == CASE Family = "Shadow" -> ShadowCase(x) [] Family = "Shadow2" -> Shadow2Case(x) [] Family = "Tail2" -> Tail2Case(x) [] Family = "Misaligned" -> MisCase(x) [] Family = "Repo" -> RepoCase(x) [] Family = "Unroll" -> UnrollCase(x) [] Family = "Call" -> CallCase(x) [] Family = "LineFill" -> LineFillCase(x) [] Family = "RegDep" -> RegDepCase(x) [] Family = "Tail" -> TailCase(x)
                [] Family = "MemDep" -> MemDepCase(x) [] Family = "MemWalk" -> WalkCase(x) [] Family = "Err" -> ErrCase(x)
                [] Family = "Timing" -> TimingCase(x)
 
